@@ -42,6 +42,11 @@ pub fn raise_interrupt() {
     crate::machine::INTERRUPT.store(true, Ordering::Relaxed);
 }
 
+/// Withdraw a pending interrupt request.
+pub fn clear_interrupt() {
+    crate::machine::INTERRUPT.store(false, Ordering::Relaxed);
+}
+
 /// Generic countdown used by injectors: fires once when it goes from 1 to 0.
 pub struct Countdown(AtomicI64);
 
